@@ -4,6 +4,7 @@
   Helper lemmas: Proofs/C09.lean (tuple comparison), Proofs/C09Tables.lean (tables), Proofs/C09Case.lean.
 -/
 import AttrsModel.Proofs.C09Case
+import AttrsModel.Proofs.SrcFuncs
 
 namespace Attrs.C09
 
@@ -461,5 +462,29 @@ theorem C09_model_meets_spec (c : Case) : spec c (model c) = true := by
         · rfl
       rw [hcond]
       cases hr : declRejects c <;> simp
+
+/-! ### T1b: the resolution functions as written in /repo's source on this run -/
+
+/-- **C09_source_determine_attrs**: `_determine_attrs_eq_order`, translated from the current source
+    (`Gen.determine_attrs_eq_order`, regenerated on every run), computes exactly the hand-written model
+    `determineAttrs` that `C09_resolution` is about — for every combination of `cmp`, `eq`, `order`, `default_eq`
+    in {None, True, False}: same effective pair, ValueError in the same cases. -/
+theorem C09_source_determine_attrs (env : Py.Env) (ext : Py.Ext) (cmp eq order d : Option Bool) :
+    Gen.determine_attrs_eq_order env ext (Src.embOB cmp) (Src.embOB eq) (Src.embOB order) (Src.embOB d) =
+      match determineAttrs cmp eq order d with
+      | .ok (e, o) => .ok (Py.mkTup [Src.embOB e, Src.embOB o])
+      | .error _ => .error .valueError :=
+  Src.determine_attrs env ext cmp eq order d
+
+/-- **C09_source_determine_attrib**: `_determine_attrib_eq_order(cmp, eq, order, True)` translated from the current
+    source computes the model's `determineAttrib` (`C09_resolution_field`): same effective booleans, ValueError in
+    the same cases, and `eq_key` / `order_key` are the very callables the model's views name. -/
+theorem C09_source_determine_attrib (env : Py.Env) (ext : Py.Ext) (kc ke ko : Nat) (cmp eq order : FArg) :
+    Gen.determine_attrib_eq_order env ext (Src.embFArg kc cmp) (Src.embFArg ke eq) (Src.embFArg ko order) Py.vTrue =
+      match determineAttrib cmp eq order with
+      | some (e, ev, o, ov) =>
+        .ok (Py.mkTup [Py.vBool e, Src.viewKey kc ke ko ev, Py.vBool o, Src.viewKey kc ke ko ov])
+      | none => .error .valueError :=
+  Src.determine_attrib env ext kc ke ko cmp eq order
 
 end Attrs.C09
